@@ -40,7 +40,12 @@ class MemmappingExecutor(_ReusablePoolExecutor):
         executor_args = backend_args.copy()
         executor_args.update(env if env else {})
         executor_args.update(
-            dict(timeout=timeout, initializer=initializer, initargs=initargs)
+            dict(
+                timeout=timeout,
+                initializer=initializer,
+                initargs=initargs,
+                temp_folder=temp_folder,
+            )
         )
         reuse = _executor_args is None or _executor_args == executor_args
         _executor_args = executor_args
